@@ -350,7 +350,8 @@ func (d *TCPDialer) tryDial(
 				return nil, wrapDialWithUpstream(ErrDialTimeout, addr)
 			}
 		}
-		defer func() { <-concurrencyCh }()
+		verifPoint("dial.slot.acquired")
+		defer func() { verifPoint("dial.slot.released"); <-concurrencyCh }()
 	}
 
 	dialer := net.Dialer{}
